@@ -10,6 +10,8 @@ pub ghost struct ReceiptRow { pub start_block: u32, pub user_signature: Seq<char
 pub ghost struct BodyRow { pub blob: Seq<u8>, pub to_self_delay: u32 }
 pub ghost struct ProofRow { pub locator: Locator, pub recovered_id: TowerId }
 pub struct SqliteError;
+pub struct PathBuf;
+impl PathBuf { #[verifier::external_body] pub fn join(&self, p: &str) -> PathBuf { unimplemented!() } }
 #[derive(Debug)]
 pub enum DBError { AlreadyExists, MissingForeignKey, MissingField, NotFound, Unknown }
 impl std::fmt::Debug for SqliteError { #[verifier::external_body] fn fmt(&self, f: &mut std::fmt::Formatter<'_>) -> std::fmt::Result { unimplemented!() } }
@@ -51,6 +53,46 @@ impl DBM {
         &&& forall|k: (TowerId, Locator)| k.0 != t ==> (#[trigger] self.invalid.contains(k) <==> o.invalid.contains(k))
         &&& forall|x: TowerId| x != t ==> (#[trigger] self.proofs.contains_key(x) <==> o.proofs.contains_key(x)) && (o.proofs.contains_key(x) ==> self.proofs[x] == o.proofs[x])
     }
+
+    // every tower row was written together with a registration receipt (store_tower_record is one transaction)
+    pub open spec fn towers_have_receipts(&self) -> bool {
+        forall|t: TowerId| #[trigger] self.towers.contains_key(t) ==> exists|e: u32| self.max_expiry(t, e)
+    }
+    // Assumption A7 (on-disk integrity): the database found at start-up was written by this code - foreign keys hold
+    // (SQLite enforces them: PRAGMA foreign_keys=1) and every tower row has its registration receipt; opening it succeeds.
+//@ transcribes watchtower-plugin/src/dbm.rs :: impl DBM :: fn new :: sha=1274806b4f1b8ec2
+    #[verifier::external_body]
+    pub fn new(db_path: &PathBuf) -> (r: Result<DBM, SqliteError>)
+        ensures r is Ok, r->Ok_0.fk(), r->Ok_0.towers_have_receipts(),
+    { unimplemented!() }
+//@ transcribes watchtower-plugin/src/dbm.rs :: impl DBM :: fn load_client_key :: sha=af9fc75e1bc67bcf
+    #[verifier::external_body]
+    pub fn load_client_key(&self) -> (r: Option<SecretKey>) { unimplemented!() }
+//@ transcribes watchtower-plugin/src/dbm.rs :: impl DBM :: fn store_client_key :: sha=45647c6586c2616c
+    #[verifier::external_body]
+    pub fn store_client_key(&self, sk: &SecretKey) -> (r: Result<(), DBError>) ensures r is Ok { unimplemented!() }
+    // SELECT towers JOIN their registration receipt with the largest expiry; pending / invalid locators per tower
+    // (load_appointment_locators); status: proof stored => misbehaving, else pending data => temporary unreachable,
+    // else reachable (TowerSummary::with_appointments)
+//@ transcribes watchtower-plugin/src/dbm.rs :: impl DBM :: fn load_towers :: sha=d06e6147972c6699
+//@ transcribes watchtower-plugin/src/dbm.rs :: impl DBM :: fn load_appointment_locators :: sha=8bb8920510a5664c
+//@ transcribes watchtower-plugin/src/dbm.rs :: impl DBM :: fn exists_misbehaving_proof :: sha=034915740493a91f
+//@ transcribes watchtower-plugin/src/lib.rs :: impl TowerSummary :: fn with_appointments :: sha=00f141d11d1693d2
+    #[verifier::external_body]
+    pub fn load_towers(&self) -> (r: HashMap<TowerId, TowerSummary>)
+        ensures
+            forall|t: TowerId| #[trigger] r@.contains_key(t) <==> self.towers.contains_key(t) && exists|e: u32| self.max_expiry(t, e),
+            forall|t: TowerId| #[trigger] r@.contains_key(t) ==> {
+                &&& r@[t].available_slots == self.towers[t].available_slots
+                &&& r@[t].net_addr.net_addr@ == self.towers[t].net_addr
+                &&& self.max_expiry(t, r@[t].subscription_expiry)
+                &&& r@[t].subscription_start == self.reg_receipts[(t, r@[t].subscription_expiry)].subscription_start
+                &&& (forall|l: Locator| #[trigger] r@[t].pending_appointments@.contains(l) <==> self.pending.contains((t, l)))
+                &&& (forall|l: Locator| #[trigger] r@[t].invalid_appointments@.contains(l) <==> self.invalid.contains((t, l)))
+                &&& r@[t].status == (if self.proofs.contains_key(t) { TowerStatus::Misbehaving }
+                        else if r@[t].pending_appointments@.len() != 0 { TowerStatus::TemporaryUnreachable } else { TowerStatus::Reachable })
+            },
+    { unimplemented!() }
 
     // one transaction: upsert towers; INSERT INTO registration_receipts
 //@ transcribes watchtower-plugin/src/dbm.rs :: impl DBM :: fn store_tower_record :: sha=5e929871c23040de
